@@ -314,6 +314,16 @@ def rule_apply(s):
     return ''.join(out), n
 
 def rule_blockbody(s, fname_patterns):
+    """nested block literals (a block posted from inside a posted block) are lowered by repeating the
+    single-level rule until nothing fires"""
+    total = 0
+    for _ in range(8):
+        s, n = rule_blockbody1(s, fname_patterns, total)
+        if n == 0: break
+        total += n
+    return s, total
+
+def rule_blockbody1(s, fname_patterns, base=0):
     """R-async: CALL(args..., ^{B}) for the listed callee names -> { __verif_block_begin("callee", first-arg); B; __verif_block_end(); }
     The block body is evaluated where the block is created (by-value captures are snapshots
     taken exactly there)."""
@@ -337,9 +347,9 @@ def rule_blockbody(s, fname_patterns):
         body = rest[1:be]
         first = inner[:k].rstrip().rstrip(',').strip()
         n += 1
-        body2 = re.sub(r'\breturn\s*;', 'goto __verif_ab_end_%d;' % n, body)
+        body2 = re.sub(r'\breturn\s*;', 'goto __verif_ab_end_%d;' % (base + n), body)
         rep = ('({ __verif_block_begin_%s(%s); { %s } __verif_ab_end_%d: __verif_block_end(); })') % (
-            m.group(1), first if first else '0', body2, n)
+            m.group(1), first if first else '0', body2, base + n)
         out.append(s[pos:st]); out.append(rep); pos = cl + 1
     out.append(s[pos:])
     return ''.join(out), n
